@@ -37,8 +37,11 @@ def programs(tier):
     texts += [c["text"] for c in r2.tagged("CASE") if c["shape"] == "forced"]
     texts += list(corpus.all_programs().values())
     texts += corpus.VALUE_PROGRAMS
+    rk = tlc_generate("Gen_Blocks")
+    bl = [c["text"] for c in rk[0]]
+    texts += bl if tier == "thorough" else [t for i, t in enumerate(bl) if i % 9 == seed() % 9]
     texts += corpus.EXIT_PROGRAMS + corpus.STACK_PROGRAMS
-    return list(dict.fromkeys(texts)), [r1, r2, rb[1], re_[1]]
+    return list(dict.fromkeys(texts)), [r1, r2, rb[1], re_[1], rk[1]]
 
 
 def observe(rvh, texts, wd, name):
